@@ -284,7 +284,7 @@ def obligations(ctx):
         obls.append(Obl("C17.shape." + shape_key(kl, vl), "C17", S, entry="h_shape", defines=d, mode="bounded",
                         bound="shape-bounded: %d entries, key lengths %s, value lengths %s (-1 = no value); bytes symbolic over {a,b,':','=',' ','1'}"
                               % (len(kl), list(kl), list(vl)),
-                        cbmc=["--unwind", str(blen + 3), "--unwinding-assertions"], timeout=900, mem_gb=8, termination=True,
+                        cbmc=["--unwind", str(max(blen + 3, 10)), "--unwinding-assertions"], timeout=900, mem_gb=8, termination=True,
                         case={"klen": list(kl), "vlen": list(vl), "block_bytes": blen}))
     # cross-check without the callee contract inside find/operator[] (real operator++ everywhere): small shapes only (expensive)
     real = [((1,), (-1,)), ((2,), (1,)), ((3,), (3,)), ((1, 1), (-1, 0)), ((1, 2), (1, -1))]
@@ -295,7 +295,7 @@ def obligations(ctx):
         d = dict(raw, K=str(len(kl)), KLEN=",".join(map(str, kl)), VLEN=",".join(map(str, vl)), LOOKUP_REAL=None)
         obls.append(Obl("C17.shape_lookup_real." + shape_key(kl, vl), "C17", S, entry="h_shape", defines=d, mode="bounded",
                         bound="shape-bounded, real operator++ inside find/operator[]: key lengths %s, value lengths %s" % (list(kl), list(vl)),
-                        cbmc=["--unwind", str(blen + 3), "--unwinding-assertions"], timeout=1500, mem_gb=10, termination=True,
+                        cbmc=["--unwind", str(max(blen + 3, 10)), "--unwinding-assertions"], timeout=1500, mem_gb=10, termination=True,
                         case={"klen": list(kl), "vlen": list(vl), "lookup": "real"}))
     # container built from the metadata pointer itself (not through Port::meta()): MetaContainer(p.metadata), as path_search does
     for kl, vl in [((1,), (-1,)), ((2, 1), (1, -1))]:
@@ -303,7 +303,7 @@ def obligations(ctx):
         d = dict(raw, K=str(len(kl)), KLEN=",".join(map(str, kl)), VLEN=",".join(map(str, vl)), UNSTRIPPED=None)
         obls.append(Obl("C17.unstripped_container." + shape_key(kl, vl), "C17", S, entry="h_shape", defines=d, mode="bounded",
                         bound="shape-bounded, container = MetaContainer(port.metadata): key lengths %s, value lengths %s" % (list(kl), list(vl)),
-                        cbmc=["--unwind", str(blen + 3), "--unwinding-assertions"], timeout=900, termination=True,
+                        cbmc=["--unwind", str(max(blen + 3, 10)), "--unwinding-assertions"], timeout=900, termination=True,
                         case={"klen": list(kl), "vlen": list(vl), "container": "unstripped"}))
     obls.append(Obl("C17.shape.canary", "C17", S, entry="h_shape", defines=dict(raw, K="3", KLEN="1,1,1", VLEN="-1,1,0"), mode="bounded",
                     bound="canary", cbmc=["--unwind", "20", "--unwinding-assertions"], canary=True))
